@@ -27,7 +27,7 @@ meta = {
     "id": sid, "property": prop, "author": "independent sub-agent (saw only the property text and a scratch worktree)",
     "needs_to_manifest": needs, "demonstration_files": demos,
     "how_to_run_demo": "apply patch.diff to a scratch worktree of /repo, copy demo/* into it at the same relative paths, run the go test command given in NOTES.md",
-    "confirmed_by_lead": [],
+    "confirmed_by_lead": [], "round": int(os.environ.get("SEED_ROUND", "3")),
     "caught_by": caught,
 }
 json.dump(meta, open(os.path.join(dst, "meta.json"), "w"), indent=1)
